@@ -247,6 +247,11 @@ def run(ctx):
 
 
 # ------------------------------------------------------------------------------------------------ R03.8
+def method_params(fi):
+    a = fi.node.args
+    return [p.arg for p in a.posonlyargs + a.args][1:]
+
+
 def _eval_loc_inner(model, s_, e_, mid_, ta_, tb_):
     """One activation of _Interval._loc_inner on a node [s, e] (split at mid, or a leaf if mid is None) for the query
     (ta, tb), all times being representative rationals of one *ordering*; children / parent / _split are opaque."""
@@ -258,7 +263,7 @@ def _eval_loc_inner(model, s_, e_, mid_, ta_, tb_):
         def f(it, a, k, n, f2):
             actions.append((name, tuple(a[:2])))
             return ("GEN", name)
-        return Intrinsic(name, f)
+        return Intrinsic(name, f, params=method_params(fi))
     parent = Obj("parent", attrs={"_loc_inner": rec("parent")})
     left = Obj("left", attrs={"_loc_inner": rec("left")})
     right = Obj("right", attrs={"_loc_inner": rec("right")})
@@ -272,7 +277,7 @@ def _eval_loc_inner(model, s_, e_, mid_, ta_, tb_):
         node.attrs["_midway"] = a[0]
         node.attrs["_left_child"], node.attrs["_right_child"] = left, right
         return None
-    node.attrs["_split"] = Intrinsic("_split", split)
+    node.attrs["_split"] = Intrinsic("_split", split, params=method_params(model.func(BI, "_Interval._split")))
 
     class H(bk.BrownianHooks):
         def on_yield(self, interp, value, n, f2):
